@@ -56,10 +56,15 @@ BLOCK_KINDS = ["if", "if-else", "tc", "tc-else", "tc-nested-if", "typing.tc", "t
                # the guard written one level down (inside a plain if / a try), and spelled through an import alias
                "if-then-tc", "try-then-tc", "alias.tc", "renamed-tc",
                # a plain `if` inside a `try` inside the guard: statements after the inner `if` are still guarded
-               "tc-try-if"]
+               "tc-try-if",
+               # a documented assignment (assignment + string) in the clauses that are not `body`: else of if / for / while / try, except, finally
+               "if-else-doc", "for-else-doc", "while-else-doc", "try-else-doc", "try-except-doc", "try-finally-doc"]
 SMALL_ONLY = {"tc-try-if"}
+DOC_KINDS = {"if-else-doc", "for-else-doc", "while-else-doc", "try-else-doc", "try-except-doc", "try-finally-doc"}
+DOC_ARMS = [(("assign", "a", "assign"), ("string",)), (("assign", "a", "annassign"), ("string",)), (("chain",), ("string",)), (("assign", "b", "assign"), ("assign", "a", "assign"), ("string",))]
 ARMS = {"if": 1, "if-else": 2, "tc": 1, "tc-else": 2, "tc-nested-if": 2, "typing.tc": 1, "try-except": 2, "try-full": 4, "for": 1, "while": 1, "with": 1,
-        "if-then-tc": 2, "try-then-tc": 1, "alias.tc": 1, "renamed-tc": 1, "tc-try-if": 2}
+        "if-then-tc": 2, "try-then-tc": 1, "alias.tc": 1, "renamed-tc": 1, "tc-try-if": 2,
+        "if-else-doc": 1, "for-else-doc": 1, "while-else-doc": 1, "try-else-doc": 1, "try-except-doc": 1, "try-finally-doc": 1}
 
 
 def leaves(names=("a", "b"), full=True):
@@ -95,6 +100,9 @@ ARM_LEAVES_SMALL = [("def", "a", "plain"), ("assign", "a", "assign"), ("assign",
 def blocks(full=True):
     out = []
     for k in BLOCK_KINDS:
+        if k in DOC_KINDS:
+            out.extend(("block", k, (arm,)) for arm in (DOC_ARMS if full else DOC_ARMS[:1]))
+            continue
         n = ARMS[k]
         arms_alpha = ARM_LEAVES if (n <= 2 and full and k not in SMALL_ONLY) else ARM_LEAVES_SMALL
         for arms in itertools.product(arms_alpha, repeat=n):
@@ -359,6 +367,16 @@ def render_stmt(r: R, s, ind, ctx, scope):
             arm(arms[2], ind + 1, None, g)
             r.emit("finally:", ind)
             arm(arms[3], ind + 1, None, g)
+        elif kind in DOC_KINDS:
+            head, clause, cond = {"if-else-doc": ("if z:", "else:", "if"), "for-else-doc": ("for z in y:", "else:", None), "while-else-doc": ("while z:", "else:", None),
+                                  "try-else-doc": ("try:", "else:", None), "try-except-doc": ("try:", "except Exception:", "except"), "try-finally-doc": ("try:", "finally:", None)}[kind]
+            r.emit(head, ind)
+            r.emit("pass", ind + 1)
+            if kind == "try-else-doc":
+                r.emit("except Exception:", ind)
+                r.emit("pass", ind + 1)
+            r.emit(clause, ind)
+            arm(arms[0], ind + 1, cond, g)
         elif kind == "for":
             r.emit("for z in y:", ind)
             arm(arms[0], ind + 1, None, g)
